@@ -77,6 +77,8 @@ pub proof fn lemma_empty_result_ok(b: BlockTranslationResult, address: u64, capb
 /// the i-th manual edge's endpoints
 pub open spec fn me_head(o: Options, i: int) -> u64 { o.manual_edges@[i].head_address }
 pub open spec fn me_tail(o: Options, i: int) -> u64 { o.manual_edges@[i].tail_address }
+/// either endpoint (t = false: head, t = true: tail) - the form the quantified statements use
+pub open spec fn me_end(o: Options, i: int, t: bool) -> u64 { if t { me_tail(o, i) } else { me_head(o, i) } }
 
 /// address `a` has a result, is queued, or is the address being translated right now
 #[verifier::opaque]
@@ -88,14 +90,14 @@ pub open spec fn covered(rs: Map<u64, BlockTranslationResult>, q: Seq<u64>, cur:
 /// every result - is covered
 pub open spec fn pending_inv(rs: Map<u64, BlockTranslationResult>, q: Seq<u64>, cur: Option<u64>, o: Options, fa: u64) -> bool {
     &&& covered(rs, q, cur, fa)
-    &&& forall|i: int| 0 <= i < o.manual_edges@.len() ==> covered(rs, q, cur, #[trigger] me_head(o, i)) && covered(rs, q, cur, me_tail(o, i))
+    &&& forall|i: int, t: bool| 0 <= i < o.manual_edges@.len() ==> covered(rs, q, cur, #[trigger] me_end(o, i, t))
     &&& forall|k: u64, i: int| rs.contains_key(k) && 0 <= i < rs[k].successors@.len() ==> covered(rs, q, cur, (#[trigger] rs[k].successors@[i]).0)
 }
 
 /// the results are closed: nothing is missing
 pub open spec fn closed(rs: Map<u64, BlockTranslationResult>, o: Options, fa: u64) -> bool {
     &&& rs.contains_key(fa)
-    &&& forall|i: int| 0 <= i < o.manual_edges@.len() ==> rs.contains_key(#[trigger] me_head(o, i)) && rs.contains_key(me_tail(o, i))
+    &&& forall|i: int, t: bool| 0 <= i < o.manual_edges@.len() ==> rs.contains_key(#[trigger] me_end(o, i, t))
     &&& forall|k: u64, i: int| rs.contains_key(k) && 0 <= i < rs[k].successors@.len() ==> rs.contains_key((#[trigger] rs[k].successors@[i]).0)
 }
 
@@ -106,7 +108,7 @@ pub proof fn lemma_pending_done(rs: Map<u64, BlockTranslationResult>, q: Seq<u64
     reveal(covered);
     assert(covered(rs, q, None, fa));
     assert(rs.contains_key(fa));
-    assert forall|i: int| 0 <= i < o.manual_edges@.len() implies rs.contains_key(#[trigger] me_head(o, i)) && rs.contains_key(me_tail(o, i)) by {
+    assert forall|i: int, t: bool| 0 <= i < o.manual_edges@.len() implies rs.contains_key(#[trigger] me_end(o, i, t)) by {
         assert(covered(rs, q, None, me_head(o, i)));
         assert(covered(rs, q, None, me_tail(o, i)));
     }
@@ -150,7 +152,7 @@ pub proof fn lemma_pending_init(rs: Map<u64, BlockTranslationResult>, q: Seq<u64
     ensures pending_inv(rs, q, None, o, fa),
 {
     reveal(covered);
-    assert forall|i: int| 0 <= i < o.manual_edges@.len() implies covered(rs, q, None, #[trigger] me_head(o, i)) && covered(rs, q, None, me_tail(o, i)) by {
+    assert forall|i: int, t: bool| 0 <= i < o.manual_edges@.len() implies covered(rs, q, None, #[trigger] me_end(o, i, t)) by {
         assert(q.contains(me_head(o, i)));
         assert(q.contains(me_tail(o, i)));
     }
@@ -193,7 +195,7 @@ pub proof fn lemma_pending_pop(rs: Map<u64, BlockTranslationResult>, q: Seq<u64>
     let q2 = q.subrange(1, q.len() as int);
     let cur = Some(q[0]);
     lemma_covered_pop(rs, q, fa);
-    assert forall|i: int| 0 <= i < o.manual_edges@.len() implies covered(rs, q2, cur, #[trigger] me_head(o, i)) && covered(rs, q2, cur, me_tail(o, i)) by {
+    assert forall|i: int, t: bool| 0 <= i < o.manual_edges@.len() implies covered(rs, q2, cur, #[trigger] me_end(o, i, t)) by {
         assert(covered(rs, q, None, me_head(o, i)));
         assert(covered(rs, q, None, me_tail(o, i)));
         lemma_covered_pop(rs, q, me_head(o, i));
@@ -212,7 +214,7 @@ pub proof fn lemma_pending_skip(rs: Map<u64, BlockTranslationResult>, q: Seq<u64
 {
     reveal(covered);
     assert(covered(rs, q, None, fa));
-    assert forall|i: int| 0 <= i < o.manual_edges@.len() implies covered(rs, q, None, #[trigger] me_head(o, i)) && covered(rs, q, None, me_tail(o, i)) by {
+    assert forall|i: int, t: bool| 0 <= i < o.manual_edges@.len() implies covered(rs, q, None, #[trigger] me_end(o, i, t)) by {
         assert(covered(rs, q, Some(x), me_head(o, i)));
         assert(covered(rs, q, Some(x), me_tail(o, i)));
         assert(covered(rs, q, None, me_head(o, i)));
@@ -241,7 +243,7 @@ pub proof fn lemma_pending_insert(rs: Map<u64, BlockTranslationResult>, q: Seq<u
 {
     let rs2 = rs.insert(x, b);
     lemma_covered_insert(rs, q, q2, x, b, fa);
-    assert forall|i: int| 0 <= i < o.manual_edges@.len() implies covered(rs2, q2, None, #[trigger] me_head(o, i)) && covered(rs2, q2, None, me_tail(o, i)) by {
+    assert forall|i: int, t: bool| 0 <= i < o.manual_edges@.len() implies covered(rs2, q2, None, #[trigger] me_end(o, i, t)) by {
         assert(covered(rs, q, Some(x), me_head(o, i)));
         assert(covered(rs, q, Some(x), me_tail(o, i)));
         lemma_covered_insert(rs, q, q2, x, b, me_head(o, i));
@@ -295,7 +297,7 @@ pub ghost struct TrView {
 pub open spec fn confined(tv: TrView, mv: MemView, o: Options, fa: u64, u: Set<u64>) -> bool {
     &&& u.finite()
     &&& u.contains(fa)
-    &&& forall|i: int| 0 <= i < o.manual_edges@.len() ==> u.contains(#[trigger] me_head(o, i)) && u.contains(me_tail(o, i))
+    &&& forall|i: int, t: bool| 0 <= i < o.manual_edges@.len() ==> u.contains(#[trigger] me_end(o, i, t))
     &&& forall|a: u64, bytes: Seq<u8>, b: BlockTranslationResult, i: int|
             u.contains(a) && is_window(mv, a, DEFAULT_TRANSLATION_BLOCK_BYTES, bytes) && #[trigger] (tv.may_return)(bytes, a, o, b)
             && 0 <= i < b.successors@.len() ==> u.contains((#[trigger] b.successors@[i]).0)
